@@ -20,7 +20,7 @@ pub static DEF: PropDef = PropDef {
     id: "C06",
     level: "exploration",
     engine: "ingest",
-    rule: "one run = a real Ingester (WAL on or off, object-store or in-memory catalog, flush_row_count 2..50, flush_interval 0.2..5 s, sometimes a tiny max_buffer_size) with 2..4 concurrent writer tasks issuing 3..8 writes each of 1..50-row batches over 4 schema variants (both timestamp types, nullable label, i64/u64/f64 extremes incl. NaN/-0/inf/subnormal, near-extreme timestamps) plus the flush timer and two subscribers; no faults; every object-store request and the post-WAL-append pause point is a seeded scheduling point; distinct = distinct grant sequence; non-trivial = completed AND writers/flushes interleaved",
+    rule: "one run = a real Ingester (WAL on or off, object-store or in-memory catalog, flush_row_count 2..50, flush_interval 0.2..5 s, sometimes a tiny max_buffer_size) with 2..4 concurrent writer tasks issuing 3..8 writes each of 1..50-row batches (one write in seven re-sends the previous batch unchanged) over 4 schema variants (both timestamp types, nullable label, i64/u64/f64 extremes incl. NaN/-0/inf/subnormal, near-extreme timestamps) plus the flush timer and two subscribers; no faults; every object-store request and the post-WAL-append pause point is a seeded scheduling point; distinct = distinct grant sequence; non-trivial = completed AND writers/flushes interleaved",
     quick_runs: 4000,
     thorough_runs: 60_000,
     run_cap_ms: 30_000,
@@ -103,8 +103,16 @@ fn scen(spec: RunSpec) -> ScenFut {
         for _ in 0..writers {
             let base_variant = sim::w(4);
             let k = sim::w_range(3, 8);
-            let mut ops = Vec::new();
+            let mut ops: Vec<(u32, Vec<Row>, u64)> = Vec::new();
             for _ in 0..k {
+                // a client that re-sends a batch it already sent (a scrape delivered twice): every copy is an
+                // accepted write of its own, so every copy must be stored
+                if !ops.is_empty() && sim::w(7) == 6 {
+                    let again = ops[ops.len() - 1].clone();
+                    sim::probe("batch-sent-twice");
+                    ops.push(again);
+                    continue;
+                }
                 let variant = if sim::w(4) == 3 { sim::w(4) } else { base_variant };
                 let nrows = [1usize, 1, 2, 3, 5, 50][sim::w(6) as usize];
                 let extreme_vals = sim::w(4) == 3;
